@@ -14,4 +14,12 @@ CLAIMS = {
         "text": "Proved: the serialiser's per-type RDATA layout equals the deserialiser's (both extracted from the Rust source each run); compression pointers are only memoised for offsets < 2^14; (name/message round-trip theorems are added as they close). Impl-vs-Model byte-exact on all 8192 header combinations, messages over all record types with shared and maximal names, sizes crossing 16 KiB and 64 KiB; oracle: reference decoder reads the implementation's bytes back to the same message and every pointer targets the start of a pointer-free name.",
         "note": "Trusted: Lean kernel; model<->Rust tie is differential. Found and fixed F1 (pointer for offsets >= 16384).",
     },
+    "C02": {
+        "text": "Proved on the tree model for every node/name/type: the apex never yields a referral whatever NS it carries; a name missing beneath the apex with no wildcard is a name error, not a referral; an empty non-terminal yields an empty answer (refinement of the whole lookup to the flat RFC 1034 spec ZSpec.lookup under D1 is being proved). Impl-vs-Model on generated zones x names x 14 query types; Impl-vs-Spec oracle = ZSpec.lookup (flat, tree-free) on every D1 zone.",
+        "note": "Trusted: Lean kernel; model<->Rust tie is differential. D1 zones only for the spec oracle. Found and fixed F2 (apex NS referral).",
+    },
+    "C12": {
+        "text": "Proved: merge keeps the receiver's apex, takes the merged-in zone's SOA when it has one else keeps its own (last SOA wins), refuses different apexes, and drops the receiver's SOA record set before uniting when a new SOA arrives (exactly one SOA). Union of ordinary and wildcard records: Impl-vs-Model exact and Impl-vs-Spec oracle (lookup on the concatenated entries of the files of that apex, SOA of the last file having one) over 1-5 merged zones x questions; the set-union theorem is being proved.",
+        "note": "Partial: directory enumeration/sorting by the OS is observed, not modelled. Found and fixed F3 (wildcards dropped) and F4 (two SOA records).",
+    },
 }
